@@ -141,6 +141,8 @@ def interleavings(counts):
 
 
 def run_schedule(v, srv, sb, cfg, roles, nblocks, order, tag, intruder_plan=None, rng=None):
+    if v.enough():
+        return [], []
     clients = [StepClient(i, r, srv, nblocks, tag) for i, r in enumerate(roles)]
     for c in clients:
         if c.role == "down":
